@@ -88,14 +88,14 @@ package replication
 
 //@ func (*worker).Start$3
 //@   maypanic
-//@   requires *w != nil && (*w).workerFactory != nil && (*w).engine != nil && (*w).engine.Manager != nil && (*w).engine.Manager.store != nil && (*w).engine.Manager.nh != nil && (*w).log != nil && (*w).recoverySemaphore != nil && (*w).engine.NodeHost != nil && (*w).logClient != nil && (*w).metrics.replicationFollowerIndex != nil && (*w).metrics.replicationLeaderIndex != nil && 0 <= (*w).throttle.speed && (*w).throttle.speed < 5
-//@   modifies (*w).engine.Manager.nh.nsync, (*w).engine.Manager.nh.nstale, (*w).engine.Manager.nh.lastReq, (*w).engine.NodeHost.lastRes, (*w).engine.NodeHost.lastErr, (*w).engine.NodeHost.lastCmd, (*w).engine.NodeHost.nelem, (*w).engine.NodeHost.nseq, allfields(worker), allfields(replicationThrottle), family(CH_len), world.clock, (*w).engine.Manager.store.rHas, (*w).engine.Manager.store.rPair, (*w).engine.Manager.store.nwk, (*w).engine.Manager.store.wVal, (*w).engine.Manager.store.wVer, (*w).engine.Manager.store.wDel, (*w).engine.Manager.store.wPrevHas, (*w).engine.Manager.store.wPrev
+//@   requires *w != nil && (*w).workerFactory != nil && (*w).engine != nil && (*w).engine.Manager != nil && (*w).engine.Manager.store != nil && (*w).engine.Manager.nh != nil && (*w).engine.Manager.log != nil && (*w).snapshotClient != nil && (*w).log != nil && (*w).recoverySemaphore != nil && (*w).engine.NodeHost != nil && (*w).logClient != nil && (*w).metrics.replicationFollowerIndex != nil && (*w).metrics.replicationLeaderIndex != nil && 0 <= (*w).throttle.speed && (*w).throttle.speed < 5
+//@   modifies (*w).engine.Manager.nh.lastRes, (*w).engine.Manager.nh.lastErr, (*w).engine.Manager.nh.lastCmd, (*w).engine.Manager.nh.nelem, (*w).engine.Manager.nh.nseq, family(G_any_rest), family(G_any_sdata), family(G_any_slen), family(G_any_nrecv), family(G_any_nrec), allelems(uint8), (*w).engine.Manager.nh.nsync, (*w).engine.Manager.nh.nstale, (*w).engine.Manager.nh.lastReq, (*w).engine.NodeHost.lastRes, (*w).engine.NodeHost.lastErr, (*w).engine.NodeHost.lastCmd, (*w).engine.NodeHost.nelem, (*w).engine.NodeHost.nseq, allfields(worker), allfields(replicationThrottle), family(CH_len), world.clock, (*w).engine.Manager.store.rHas, (*w).engine.Manager.store.rPair, (*w).engine.Manager.store.nwk, (*w).engine.Manager.store.wVal, (*w).engine.Manager.store.wVer, (*w).engine.Manager.store.wDel, (*w).engine.Manager.store.wPrevHas, (*w).engine.Manager.store.wPrev
 //@   before replication.(*worker).do assert [C15.gate] (*w).leased.v != 0
 // the session used for proposing is derived, on every poll, from the shard the table currently points at
 //@   before replication.(*worker).do assert [C05.session] session == noopS(id) && leaderIndex == idx
 //@   loop 0 invariant 0 <= (*w).throttle.speed && (*w).throttle.speed < 5
 //@   loop 0 invariant (*w).metrics == old((*w).metrics) && (*w).engine.NodeHost == old((*w).engine.NodeHost) && (*w).logClient == old((*w).logClient) && (*w).workerFactory == old((*w).workerFactory)
-//@   loop 0 invariant t != nil && (*w).workerFactory == old((*w).workerFactory) && (*w).engine == old((*w).engine) && (*w).engine.Manager == old((*w).engine.Manager) && (*w).engine.Manager.store == old((*w).engine.Manager.store) && (*w).engine.Manager.nh == old((*w).engine.Manager.nh) && (*w).log == old((*w).log) && (*w).recoverySemaphore == old((*w).recoverySemaphore)
+//@   loop 0 invariant t != nil && (*w).workerFactory == old((*w).workerFactory) && (*w).engine == old((*w).engine) && (*w).engine.Manager == old((*w).engine.Manager) && (*w).engine.Manager.store == old((*w).engine.Manager.store) && (*w).engine.Manager.nh == old((*w).engine.Manager.nh) && (*w).engine.Manager.log == old((*w).engine.Manager.log) && (*w).snapshotClient == old((*w).snapshotClient) && (*w).log == old((*w).log) && (*w).recoverySemaphore == old((*w).recoverySemaphore)
 
 // ---------------------------------------------------------------- applying the leader's commands (C05)
 
